@@ -14,6 +14,18 @@ LEVEL = "model_checking"
 
 
 def run(ctx):
+  from . import c13w
+  if ctx.replay_case and str(ctx.replay_case.get("clause", "")).startswith("lwsp_"):
+    return c13w.run(ctx)
   c01.run(ctx, family="c13", detail=True, decorate_docs=True, space=True)
-  ctx.rule = ("a case is one snapshot (document, time); every node of it is judged by the shape invariant; non-trivial = the "
-              "snapshot has at least one region")
+  if ctx.replay_case:
+    return None
+  # the white-space clause: character-level machine spec/Lwsp.tla (stand-alone id C13W)
+  if not ctx.thorough():
+    ctx.lwsp_maxlen = 4          # the stand-alone quick tier explores length 5; here the shape sweep shares the time budget
+  c13w.run(ctx)
+  ctx.rule = ("(a) a case is one snapshot (document, time); every node of it is judged by the shape invariant; (b) a case is one "
+              "line-building unit (paragraph / rt / rp text) judged by the white-space machine; non-trivial = the snapshot has at "
+              "least one region / the unit contains white space or a br")
+  ctx.exhaustive = False
+  return None
